@@ -28,6 +28,7 @@ pub fn run(ctx: &Ctx) {
         ctx.rep.stat("ops", out.trace.len() as i64);
         ctx.rep.stat("transfers", out.transfers as i64);
         ctx.rep.stat("set_member_bursts", out.bursts as i64);
+        ctx.rep.stat("multi_packet_sends_to_dropped_receivers", out.big_dead_sends as i64);
         ctx.rep.stat("drops", out.drops as i64);
         ctx.rep.raw(json!({"t":"prog","prog":prog,"trace":format!("{:x}", hash_of(&out.trace)),"ops":format!("{:x}", out.ops_hash),"n":out.trace.len()}));
         if let Some(m) = out.mismatch {
